@@ -340,9 +340,41 @@ mapio('ReadTilesetHeader', ['C07', 'C06']); mapio('ReadVersionTag', ['C07', 'C06
 mapio('GetWidthInTilesLog2', ['C06', 'C20']); mapio('CreateHeader', ['C06', 'C20'], replace=['Map_GetWidthInTilesLog2']); mapio('WriteContainerSize', ['C20', 'C06'])
 
 G('volw.WriteHeaderFiles.bounded', ['C02', 'C01', 'C18'], 'volw', None, harness='h_vol_write_bounded', defines=['OP2_VOLN=2'], loop_contracts=False, reach=['two members'],
-  flags=['--unwind', '50', '--unwinding-assertions', '--object-bits', '12'], timeout=1200, replace=['Rf_Length', 'CreateVolumeInfo_fileCount', 'VolSectionHeader_ctor3'], force_replace=['VolSectionHeader_ctor3'],
-  bounded='<= 2 members, names <= 3 characters, payloads <= 6 bytes (all symbolic)', trusted=VOL_TRUST,
-  what='bounded stand-in: bytes written by PrepareHeader+WriteHeader+WriteFiles equal an independent encoder of the VOL description, byte for byte')
+  flags=['--unwind', '5', '--unwinding-assertions', '--object-bits', '12'], timeout=900, replace=['Rf_Length', 'CreateVolumeInfo_fileCount', 'VolSectionHeader_ctor3', 'Wr_Write', 'Wr_WriteReaderF'],
+  force_replace=['VolSectionHeader_ctor3'], bounded='<= 2 members (sizes up to 2^31-1, names <= 3 characters, all symbolic)', trusted=VOL_TRUST + [WR_TRUST],
+  what='bounded stand-in: framing and every structural byte (tags, lengths with padding flag, paddings, block headers at the recorded offsets) of PrepareHeader+WriteHeader+WriteFiles vs the VOL description, for an arbitrary output offset')
 
 sprh('ArtFile_WriteFrame', ['C10', 'C20'], reach=EXC2, replace=['Wr_Write'], trusted=[WR_TRUST], what='all flag combinations x all 7-bit counts: framing, first bytes, refusal of count != |layers|')
 sprh('ArtFile_ReadFrame', ['C10', 'C11', 'C18'], reach=EXC2, replace=RD + ['vec_Layer_resize'], trusted=[KR_TRUST], what='consumes exactly the grammar; absent optional bytes are 0; |layers| == count')
+G('clm.PrepareIndex.bounded', ['C20', 'C03'], 'clm', None, harness='h_clm_prepareindex_bounded', defines=['OP2_CLMN=3'], loop_contracts=False, reach=EXC2, replace=['op2_strncpy'],
+  flags=['--unwind', '6', '--unwinding-assertions'], timeout=600, bounded='member count n <= 3 (data lengths fully symbolic)',
+  what='bounded stand-in: PrepareIndex vs the CLM layout in 128-bit arithmetic: refuses iff an offset does not fit 32 bits, else offsets equal the description')
+claim('C20', 'Proved: size-prefixed writes (uint8/16/32 and int8/16 prefixes) refuse a container that does not fit the prefix and otherwise write prefix then data; WriteContainerSize refuses sizes above 2^32-1; CreateHeader refuses a tileset count above 32 bits and a non-power-of-two width; WriteFrame refuses a layer list that disagrees with its 7-bit count (all counts, all flag combinations). Bounded stand-ins (labelled bounded, not proof): VolFile::PrepareHeader and ClmFile::PrepareIndex for <= 3 members with fully symbolic 64-bit sizes against the layout in 128-bit arithmetic: refused iff a size or accumulated offset does not fit its field.',
+      'The VOL/CLM accumulated-offset clauses are bounded in the member count (n <= 3), not in the sizes. NOT decided: refusal precedes creation of the destination file (WriteVolume/CreateArchive ordering; FileWriter and std::sort are outside the extractor), CLM name length rule, ArtFile count checks.')
+claim('C07', 'For ARBITRARY input bytes over any K_R stream ReadMapBeginning is proved to either throw or return a map whose width is a power of two and whose tile array has exactly height << log2(width) entries (no over-wide shift, no wrapped product, every short read refused), consuming at least the 46 fixed bytes; MapHeader::WidthInTiles/TileCount proved for every exponent <= 31; ReadVersionTag, ReadTilesetHeader, ReadTileGroup, SkipSaveGameHeader proved safe with their exact consumption or refusal.',
+      'ASSUMED abstract contracts: vector resize, Read<uint32_t>(container), ReadTilesetSources. NOT decided: ReadSavedGameUnits, ReadTileGroups loop, saved game vs map equivalence, resource exhaustion.')
+claim('C06', 'Header layer of the round trip proved: CreateHeader writes every header field from the map (width as its base-2 logarithm, saved flag normalised to 0/1), GetWidthInTilesLog2 / Log2OfPowerOf2 / IsPowerOf2 exact, MapHeader and Map constructors deterministic and as specified, version-tag checks exact, WriteContainerSize byte-exact; reader-side framing facts as in C07.',
+      'NOT decided: the container-level round trip (Write(Read(b)) = normalise(b)), WriteTilesetSources / WriteTileGroups, editing operations other than SetCellType / SetLavaPossible (proved in C16), TrimTilesetSources (lambda).')
+claim('C01', 'Proved: the comparator that orders members is a strict weak order whose incomparability is case-insensitive equality (C19 lemmas); adjacent-duplicate detection throws iff two neighbouring names are equal ignoring case; GetIndex/Contains find a member by the least matching index and agree; the reader-to-writer copy transfers exactly the remaining bytes for every chunk size; VOL section headers serialise tag, 31-bit length and padding flag exactly; the VOL reader returns exactly the recorded extents and sizes. Bounded stand-ins: PrepareHeader (n <= 3) and PrepareHeader+WriteHeader+WriteFiles byte-for-byte against an independent encoder (n <= 2, tiny names/payloads).',
+      'The layout clauses are bounded (see evidence.bounded). NOT decided: path spelling (XFile::GetFilename), std::sort, refusal-before-creation ordering, extraction to disk, PathsAreEqual case folding.')
+claim('C02', 'Writer => format: bounded byte-for-byte comparison of the written archive with an independent encoder of the VOL description (n <= 2) and of the header quantities in 128-bit arithmetic (n <= 3); section header bit layout proved. Format => reader: for arbitrary bytes ReadVolHeader establishes the archive invariant, CountValidEntries stops at the first unused slot (0xFFFFFFFF name offset), GetSize/GetCompressionCode return the recorded fields, OpenStream returns the recorded extent or refuses it; ordering facts as in C01/C19.',
+      'Bounded in the member count for the writer side. NOT decided: name table content (ReadStringTable is abstract), acceptance by the game.')
+NOT_DECIDED.update({
+ 'C20': ['refusal precedes creation of the destination (WriteVolume/CreateArchive)', 'CLM name length > 8, ArtFile animation/frame count checks', 'VOL/CLM offsets: bounded in member count'],
+ 'C07': ['ReadSavedGameUnits, ReadTileGroups, saved-game equivalence, resource exhaustion'],
+ 'C06': ['container-level round trip and byte stability', 'TrimTilesetSources'],
+ 'C01': ['layout clauses bounded in member count', 'path spelling, std::sort, extraction to disk, refusal-before-creation'],
+ 'C02': ['writer side bounded in member count', 'ReadStringTable content', 'acceptance by the game'],
+})
+G('wrt.Read_u16string', ['C12'], 'wrt', 'Reader_Read_u16string', replace=['Reader_Read'] + RD, trusted=[KR_TRUST], what='Read(basic_string<CharT>&) for a 2-byte CharT consumes size*sizeof(CharT)')
+G('wrt.Read_vec_u32', ['C12'], 'wrt', 'Reader_Read_vec_u32', replace=RD, trusted=[KR_TRUST], what='Read(container&) consumes size*sizeof(value_type)')
+G('wrt.Reader_Read', ['C12'], 'wrt', 'Reader_Read', replace=RD, trusted=[KR_TRUST])
+
+clm('ClmFile_ReadAllWaveHeaders', ['C05', 'C03'], reach=EXC2, replace=KF + ['ClmFile_FindChunk_F'], timeout=600, trusted=KF_TRUST,
+    what='WAV intake: each file\'s format record is read into its own 18-byte slot, nothing else is written; terminates')
+
+G('clm.WriteArchive.bounded', ['C03'], 'clm', None, harness='h_clm_writearchive_bounded', defines=['OP2_CLMN=2'], loop_contracts=False, reach=['two members'],
+  replace=['op2_strncpy', 'Wr_Write', 'Wr_WriteReaderFr', 'Wr_WriteSliceT', 'FileWriter_ctor', 'Fr_Slice1', 'ClmHeader_MakeHeader'], force_replace=['ClmHeader_MakeHeader'],
+  flags=['--unwind', '5', '--unwinding-assertions', '--object-bits', '12'], timeout=600, bounded='<= 2 members (lengths, positions and data lengths fully symbolic)', trusted=[WR_TRUST] + KF_TRUST,
+  replay={'driver': 'clmw_replay.cpp', 'case': 'WriteArchive'},
+  what='bounded stand-in: the archive is header + index + exactly D_j audio bytes per member, whatever follows the data chunk in the source files')
